@@ -1,10 +1,327 @@
 import Girc.Spec.Grammar
 import Girc.Proofs.Tags
+import Girc.Proofs.ParseSections
+import Girc.Proofs.ParseTags
 namespace Girc.Proofs.ParseRender
 open Girc Girc.Model Girc.Spec
+open Girc.Proofs.ParseLemmas Girc.Proofs.ParseParams Girc.Proofs.ParseSections Girc.Proofs.ParseTags
+
+/-! ### Byte classes of the grammar -/
+
+theorem midByte_facts : ∀ b : UInt8, midByte b = true → b ≠ SP ∧ isCRLF b = false ∧ b ≠ NUL := by
+  decide +kernel
+
+theorem trailByte_facts : ∀ b : UInt8, trailByte b = true → isCRLF b = false ∧ b ≠ NUL := by
+  decide +kernel
+
+theorem letter_facts : ∀ b : UInt8, isAsciiLetter b = true →
+    b ≠ SP ∧ isCRLF b = false ∧ b ≠ AT ∧ b ≠ COLON := by
+  decide +kernel
+
+theorem digit_facts : ∀ b : UInt8, isAsciiDigit b = true →
+    b ≠ SP ∧ isCRLF b = false ∧ b ≠ AT ∧ b ≠ COLON := by
+  decide +kernel
+
+theorem pfxByte_facts : ∀ b : UInt8, (midByte b && b != BANG && b != AT) = true →
+    b ≠ SP ∧ isCRLF b = false ∧ b ≠ BANG ∧ b ≠ AT ∧ b ≠ NUL := by
+  decide +kernel
+
+theorem tagValByte_facts : ∀ b : UInt8,
+    (b != NUL && b != CR && b != LF && b != SP && b != 0x3B) = true →
+    b ≠ SP ∧ isCRLF b = false ∧ b ≠ 0x3B ∧ b ≠ NUL := by
+  decide +kernel
+
+theorem keyByteOK_noCRLF : ∀ b : UInt8, keyByteOK b = true → isCRLF b = false := by
+  decide +kernel
+
+/-- What the parser needs of a command token. -/
+structure CmdOK (c : Bytes) : Prop where
+  ne : c ≠ []
+  sp : SP ∉ c
+  at_ : c.head? ≠ some AT
+  col : c.head? ≠ some COLON
+  crlf : NoCRLF c
+
+theorem cmdOK_of_all (c : Bytes) (f : Byte → Bool) (hne : c ≠ []) (hall : c.all f = true)
+    (hf : ∀ b, f b = true → b ≠ SP ∧ isCRLF b = false ∧ b ≠ AT ∧ b ≠ COLON) : CmdOK c := by
+  have hb : ∀ b ∈ c, f b = true := List.all_eq_true.mp hall
+  refine ⟨hne, ?_, ?_, ?_, ?_⟩
+  · intro hm; exact (hf _ (hb _ hm)).1 rfl
+  · intro hh; exact (hf _ (hb _ (List.mem_of_mem_head? hh))).2.2.1 rfl
+  · intro hh; exact (hf _ (hb _ (List.mem_of_mem_head? hh))).2.2.2 rfl
+  · intro b hm; exact (hf _ (hb _ hm)).2.1
+
+theorem wfCommand_ok (c : Bytes) (h : wfCommand c = true) : CmdOK c ∧ 2 ≤ c.length := by
+  simp only [wfCommand, Bool.or_eq_true, Bool.and_eq_true, decide_eq_true_eq] at h
+  rcases h with ⟨hl, ha⟩ | ⟨hl, ha⟩
+  · have hne : c ≠ [] := by intro e; subst e; simp at hl
+    exact ⟨cmdOK_of_all c _ hne ha letter_facts, hl⟩
+  · have hne : c ≠ [] := by intro e; subst e; simp at hl
+    exact ⟨cmdOK_of_all c _ hne ha digit_facts, by omega⟩
+
+theorem wfMiddle_ok (t : Bytes) (h : wfMiddle t = true) : WkMid t ∧ NoCRLF t := by
+  simp only [wfMiddle, Bool.and_eq_true, Bool.not_eq_true', bne_iff_ne, ne_eq] at h
+  obtain ⟨⟨hne, hall⟩, hhead⟩ := h
+  have hb : ∀ b ∈ t, midByte b = true := List.all_eq_true.mp hall
+  refine ⟨⟨?_, ?_, hhead⟩, ?_⟩
+  · intro e; subst e; simp at hne
+  · intro hm; exact (midByte_facts _ (hb _ hm)).1 rfl
+  · intro b hm; exact (midByte_facts _ (hb _ hm)).2.1
+
+theorem wfPrefixPart_ok (s : Bytes) (h : wfPrefixPart s = true) :
+    s ≠ [] ∧ SP ∉ s ∧ BANG ∉ s ∧ AT ∉ s ∧ NoCRLF s := by
+  simp only [wfPrefixPart, Bool.and_eq_true, Bool.not_eq_true'] at h
+  obtain ⟨hne, hall⟩ := h
+  have hb : ∀ b ∈ s, (midByte b && b != BANG && b != AT) = true := by
+    intro b hm
+    have := List.all_eq_true.mp hall b hm
+    simpa using this
+  refine ⟨?_, ?_, ?_, ?_, ?_⟩
+  · intro e; subst e; simp at hne
+  · intro hm; exact (pfxByte_facts _ (hb _ hm)).1 rfl
+  · intro hm; exact (pfxByte_facts _ (hb _ hm)).2.2.1 rfl
+  · intro hm; exact (pfxByte_facts _ (hb _ hm)).2.2.2.1 rfl
+  · intro b hm; exact (pfxByte_facts _ (hb _ hm)).2.1
+
+theorem wfTagValue_ok (v : Bytes) (h : wfTagValue v = true) :
+    SP ∉ v ∧ (0x3B : Byte) ∉ v ∧ NoCRLF v := by
+  simp only [wfTagValue, Bool.and_eq_true] at h
+  have hb : ∀ b ∈ v, (b != NUL && b != CR && b != LF && b != SP && b != 0x3B) = true :=
+    List.all_eq_true.mp h.1
+  refine ⟨?_, ?_, ?_⟩
+  · intro hm; exact (tagValByte_facts _ (hb _ hm)).1 rfl
+  · intro hm; exact (tagValByte_facts _ (hb _ hm)).2.2.1 rfl
+  · intro b hm; exact (tagValByte_facts _ (hb _ hm)).2.1
+
+theorem validTag_noCRLF (k : Bytes) (h : validTag k = true) : NoCRLF k := by
+  intro b hb
+  exact keyByteOK_noCRLF b ((validTag_bytes k h).2 b hb)
+
+/-! ### Sections of a rendered line -/
+
+theorem renderTag_ok (x : Bytes × Option Bytes) (h : wfTag x = true) :
+    SP ∉ renderTag x ∧ NoCRLF (renderTag x) := by
+  obtain ⟨k, ov⟩ := x
+  simp only [wfTag, Bool.and_eq_true] at h
+  obtain ⟨hk, hv⟩ := h
+  cases ov with
+  | none => exact ⟨by simpa [renderTag] using validTag_no_sp k hk, by simpa [renderTag] using validTag_noCRLF k hk⟩
+  | some v =>
+    obtain ⟨h1, _, h3⟩ := wfTagValue_ok v (by simpa using hv)
+    refine ⟨?_, ?_⟩
+    · have : SP ≠ (0x3D : Byte) := by decide
+      simp [renderTag, validTag_no_sp k hk, h1, this]
+    · simp only [renderTag]
+      exact ((validTag_noCRLF k hk).append (NoCRLF.cons (by decide) NoCRLF.nil)).append h3
+
+theorem tagSection_ok (ts : List (Bytes × Option Bytes)) (hne : ts ≠ [])
+    (h : ∀ x ∈ ts, wfTag x = true) :
+    joinWith [0x3B] (ts.map renderTag) ≠ [] ∧ SP ∉ joinWith [0x3B] (ts.map renderTag) ∧
+      NoCRLF (joinWith [0x3B] (ts.map renderTag)) := by
+  refine ⟨?_, ?_, ?_⟩
+  · cases ts with
+    | nil => exact absurd rfl hne
+    | cons x ts =>
+      have hx := h x (by simp)
+      simp only [wfTag, Bool.and_eq_true] at hx
+      exact joinWith_ne_nil _ _ _ (renderTag_head x hx.1).1
+  · intro hm
+    rcases mem_joinWith _ _ _ hm with hm | ⟨it, hit, hb⟩
+    · revert hm; decide
+    · simp only [List.mem_map] at hit
+      obtain ⟨y, hy, rfl⟩ := hit
+      exact (renderTag_ok y (h y hy)).1 hb
+  · apply NoCRLF.joinWith (NoCRLF.cons (by decide) NoCRLF.nil)
+    intro it hit
+    simp only [List.mem_map] at hit
+    obtain ⟨y, hy, rfl⟩ := hit
+    exact (renderTag_ok y (h y hy)).2
+
+theorem wfPrefix_parts (p : Prefix) (h : wfPrefix p = true) :
+    wfPrefixPart p.name = true ∧ (∀ i, p.ident = some i → wfPrefixPart i = true) ∧
+      (∀ h, p.host = some h → wfPrefixPart h = true) := by
+  simp only [wfPrefix, Bool.and_eq_true] at h
+  refine ⟨h.1.1, ?_, ?_⟩
+  · intro i hi; have := h.1.2; rw [hi] at this; simpa using this
+  · intro i hi; have := h.2; rw [hi] at this; simpa using this
+
+/-- `lead :: s` if present. -/
+def optPart (lead : Byte) : Option Bytes → Bytes
+  | some i => lead :: i
+  | none => []
+
+theorem renderPrefix_eq (p : Prefix) :
+    renderPrefix p = p.name ++ optPart BANG p.ident ++ optPart AT p.host := by
+  obtain ⟨name, oi, oh⟩ := p
+  cases oi <;> cases oh <;> rfl
+
+theorem optPart_ok (lead : Byte) (hl : SP ≠ lead) (hc : isCRLF lead = false) (o : Option Bytes)
+    (h : ∀ i, o = some i → wfPrefixPart i = true) :
+    SP ∉ optPart lead o ∧ NoCRLF (optPart lead o) := by
+  cases o with
+  | none => exact ⟨by simp [optPart], NoCRLF.nil⟩
+  | some i =>
+    obtain ⟨_, i2, _, _, i5⟩ := wfPrefixPart_ok i (h i rfl)
+    exact ⟨by simp [optPart, i2, hl], NoCRLF.cons hc i5⟩
+
+theorem renderPrefix_ok (p : Prefix) (h : wfPrefix p = true) :
+    renderPrefix p ≠ [] ∧ SP ∉ renderPrefix p ∧ NoCRLF (renderPrefix p) := by
+  obtain ⟨hn, hi, hh⟩ := wfPrefix_parts p h
+  obtain ⟨n1, n2, _, _, n5⟩ := wfPrefixPart_ok p.name hn
+  have hI := optPart_ok BANG (by decide) (by decide) p.ident hi
+  have hH := optPart_ok AT (by decide) (by decide) p.host hh
+  rw [renderPrefix_eq]
+  refine ⟨?_, ?_, ?_⟩
+  · simp [n1]
+  · simp only [List.mem_append, not_or]
+    exact ⟨⟨n2, hI.1⟩, hH.1⟩
+  · exact (n5.append hI.2).append hH.2
+
+theorem parseSource_renderPrefix_wf (p : Prefix) (h : wfPrefix p = true) :
+    parseSource (renderPrefix p) = meaningSource p := by
+  obtain ⟨hn, hi, hh⟩ := wfPrefix_parts p h
+  obtain ⟨n1, _, n3, n4, _⟩ := wfPrefixPart_ok p.name hn
+  apply parseSource_renderPrefix p n1 n3 n4
+  · intro i hi'
+    obtain ⟨_, _, i3, i4, _⟩ := wfPrefixPart_ok i (hi i hi')
+    exact ⟨i3, i4⟩
+  · intro i hi'
+    obtain ⟨_, _, i3, _, _⟩ := wfPrefixPart_ok i (hh i hi')
+    exact i3
+
+theorem sp_noCRLF : isCRLF SP = false := by decide
+
+theorem renderMiddles_noCRLF : ∀ (ms : List (Nat × Bytes)), (∀ m ∈ ms, NoCRLF m.2) →
+    NoCRLF (renderMiddles ms)
+  | [], _ => NoCRLF.nil
+  | (k, tok) :: ms, h => by
+    simp only [renderMiddles]
+    refine (NoCRLF.append ?_ (h (k, tok) (by simp))).append
+      (renderMiddles_noCRLF ms (fun m hm => h m (by simp [hm])))
+    intro b hb
+    simp only [spaces, List.mem_replicate] at hb
+    rw [hb.2]; exact sp_noCRLF
+
+theorem secPart_noCRLF (lead : Byte) (hl : isCRLF lead = false) (sec : Option Bytes)
+    (h : ∀ s, sec = some s → NoCRLF s) : NoCRLF (secPart lead sec) := by
+  cases sec with
+  | none => exact NoCRLF.nil
+  | some s => exact NoCRLF.cons hl ((h s rfl).append (NoCRLF.cons sp_noCRLF NoCRLF.nil))
+
+/-- The line ending. -/
+def endingBytes : Nat → Bytes
+  | 0 => []
+  | 1 => [LF]
+  | _ => [CR, LF]
+
+theorem endingBytes_crlf (n : Nat) : ∀ b ∈ endingBytes n, isCRLF b = true := by
+  intro b hb
+  match n with
+  | 0 => simp [endingBytes] at hb
+  | 1 => simp [endingBytes] at hb; subst hb; decide
+  | n + 2 => simp [endingBytes] at hb; rcases hb with hb | hb <;> subst hb <;> decide
+
+/-- The tag section of a rendered line. -/
+def tagSecOf (tags : Option (List (Bytes × Option Bytes))) : Option Bytes :=
+  tags.map fun ts => joinWith [0x3B] (ts.map renderTag)
+
+theorem render_shape (l : Line) : render l =
+    (secPart AT (tagSecOf l.tags) ++ (secPart COLON (l.pfx.map renderPrefix) ++
+      (l.command ++ (renderMiddles l.middles ++ trPart l.trailing)))) ++ endingBytes l.ending := by
+  obtain ⟨tags, pfx, cmd, ms, tr, ending⟩ := l
+  rcases ending with _ | _ | e <;> cases tags <;> cases pfx <;> rcases tr with _ | ⟨n, t⟩ <;>
+    simp [render, endingBytes, secPart, trPart, tagSecOf]
 
 /-- Every grammatical line parses to exactly the structure the grammar assigns. -/
 theorem parse_render (l : Line) (h : wfLine l = true) : parseEvent (render l) = some (meaning l) := by
-  sorry
+  obtain ⟨tags, pfx, cmd, ms, tr, ending⟩ := l
+  simp only [wfLine, Bool.and_eq_true, decide_eq_true_eq] at h
+  obtain ⟨⟨⟨⟨⟨⟨htags, hpfx⟩, hcmd⟩, hmid⟩, _⟩, htr⟩, hend⟩ := h
+  -- the sections
+  let tagSec : Option Bytes := tagSecOf tags
+  let srcSec : Option Bytes := pfx.map renderPrefix
+  let P : Bytes := renderMiddles ms ++ trPart tr
+  let ending' : Bytes := endingBytes ending
+  have hshape : render ⟨tags, pfx, cmd, ms, tr, ending⟩ =
+      (secPart AT tagSec ++ (secPart COLON srcSec ++ (cmd ++ P))) ++ ending' :=
+    render_shape _
+  -- facts about the sections
+  have htagSec : ∀ s, tagSec = some s → s ≠ [] ∧ SP ∉ s ∧ NoCRLF s := by
+    intro s hs
+    cases tags with
+    | none => simp [tagSec, tagSecOf] at hs
+    | some ts =>
+      simp only [tagSec, tagSecOf, Option.map_some, Option.some.injEq] at hs
+      subst hs
+      simp only [Bool.and_eq_true, Bool.not_eq_true', List.isEmpty_eq_false_iff] at htags
+      exact tagSection_ok ts htags.1 (List.all_eq_true.mp htags.2)
+  have hsrcSec : ∀ s, srcSec = some s → s ≠ [] ∧ SP ∉ s ∧ NoCRLF s := by
+    intro s hs
+    cases pfx with
+    | none => simp [srcSec] at hs
+    | some p =>
+      simp only [srcSec, Option.map_some, Option.some.injEq] at hs
+      subst hs
+      exact renderPrefix_ok p (by simpa using hpfx)
+  obtain ⟨hcmdOK, hcmdLen⟩ := wfCommand_ok cmd hcmd
+  have hms : ∀ m ∈ ms, WkMid m.2 ∧ NoCRLF m.2 := fun m hm =>
+    wfMiddle_ok m.2 (List.all_eq_true.mp hmid m hm)
+  have hPsp : SpLead P := by
+    apply spLead_renderMiddles_append
+    rcases tr with _ | ⟨n, t⟩
+    · exact spLead_nil
+    · exact spLead_spaces_append n _
+  have hPcrlf : NoCRLF P := by
+    apply (renderMiddles_noCRLF ms (fun m hm => (hms m hm).2)).append
+    rcases tr with _ | ⟨n, t⟩
+    · exact NoCRLF.nil
+    · simp only [trPart]
+      refine NoCRLF.append ?_ (NoCRLF.cons (by decide) ?_)
+      · intro b hb
+        simp only [spaces, List.mem_replicate] at hb
+        rw [hb.2]; exact sp_noCRLF
+      · simp only at htr
+        exact NoCRLF.of_all htr (fun b hb => (trailByte_facts b hb).1)
+  have hbody : NoCRLF (secPart AT tagSec ++ (secPart COLON srcSec ++ (cmd ++ P))) :=
+    (secPart_noCRLF AT (by decide) tagSec (fun s hs => (htagSec s hs).2.2)).append
+      ((secPart_noCRLF COLON (by decide) srcSec (fun s hs => (hsrcSec s hs).2.2)).append
+        (hcmdOK.crlf.append hPcrlf))
+  have hending : ∀ b ∈ ending', isCRLF b = true := endingBytes_crlf ending
+  have htrim : trimCRLF (render ⟨tags, pfx, cmd, ms, tr, ending⟩) =
+      secPart AT tagSec ++ (secPart COLON srcSec ++ (cmd ++ P)) := by
+    rw [hshape]; exact trimCRLF_append _ _ hbody hending
+  have hlen : 2 ≤ (trimCRLF (render ⟨tags, pfx, cmd, ms, tr, ending⟩)).length := by
+    rw [htrim]; simp only [List.length_append]; omega
+  rw [parseEvent_sections _ tagSec srcSec cmd P htrim hlen
+    (fun s hs => ⟨(htagSec s hs).1, (htagSec s hs).2.1⟩)
+    (fun s hs => ⟨(hsrcSec s hs).1, (hsrcSec s hs).2.1⟩)
+    hcmdOK.ne hcmdOK.sp hcmdOK.at_ hcmdOK.col hPsp]
+  -- the assigned structure
+  have e1 : tagSec.map parseTags = tags.map meaningTags := by
+    cases tags with
+    | none => rfl
+    | some ts =>
+      simp only [Bool.and_eq_true, Bool.not_eq_true', List.isEmpty_eq_false_iff] at htags
+      have hall := List.all_eq_true.mp htags.2
+      simp only [tagSec, tagSecOf, Option.map_some, Option.some.injEq]
+      apply parseTags_render ts htags.1
+      · intro x hx
+        have := hall x hx
+        simp only [wfTag, Bool.and_eq_true] at this
+        exact this.1
+      · intro x hx v hv
+        have := hall x hx
+        simp only [wfTag, Bool.and_eq_true, hv, Option.all_some] at this
+        exact (wfTagValue_ok v this.2).2.1
+  have e2 : srcSec.map parseSource = pfx.map meaningSource := by
+    cases pfx with
+    | none => rfl
+    | some p =>
+      simp only [srcSec, Option.map_some, Option.some.injEq]
+      exact parseSource_renderPrefix_wf p (by simpa using hpfx)
+  have e3 : parseParams (P.drop 1) = ms.map (·.2) ++ trList tr :=
+    parseParams_render ms tr (fun m hm => (hms m hm).1)
+  rw [e1, e2, e3]
+  rcases tr with _ | ⟨n, t⟩ <;> simp [meaning, trList]
 
 end Girc.Proofs.ParseRender
